@@ -345,8 +345,9 @@ class Ctx:
             "wall_s": round(time.time() - self.t0, 2),
             "violations": violations,
         }
-        d = VERIF / "evidence"
-        d.mkdir(exist_ok=True)
+        # development runs without the proof part (--no-proof) describe no complete check: kept apart
+        d = VERIF / "evidence" if self.proof else Path(os.environ.get("VERIF_DEV_EVIDENCE", "/tmp/afverif-dev-evidence"))
+        d.mkdir(exist_ok=True, parents=True)
         (d / f"{self.prop}.json").write_text(json.dumps(ev, indent=1, default=str))
 
 
